@@ -60,7 +60,7 @@ def ensure_driver():
             raise InfraError('driver build failed:\n' + r.stdout[-3000:])
 
 
-def extract(profile='dev', repo=REPO, packages=None, tag=None):
+def extract(profile='dev', repo=REPO, packages=None, tag=None, need=None):
     if tag is None:
         tag = os.environ.get('CBV_TAG', '')
     """run the driver over the workspace; returns the directory holding the fact files.
@@ -84,7 +84,7 @@ def extract(profile='dev', repo=REPO, packages=None, tag=None):
             fp = os.path.join(target, sub, '.fingerprint')
             if os.path.isdir(fp):
                 for d in os.listdir(fp):
-                    if d.startswith('clock-bound') or d.startswith('clockbound'):
+                    if d.startswith(('clock-bound', 'clockbound', 'cbv-')):
                         shutil.rmtree(os.path.join(fp, d), ignore_errors=True)
         env = dict(os.environ)
         env.update({
@@ -110,7 +110,8 @@ def extract(profile='dev', repo=REPO, packages=None, tag=None):
                 head = fh.read(400)
             if nonce in head:
                 fresh += 1
-        need = 6 if not packages else len(packages)
+        if need is None:
+            need = 6 if not packages else len(packages)
         if fresh < need:
             shutil.rmtree(out, ignore_errors=True)
             raise InfraError('expected %d fresh fact files, found %d (cargo freshness cache?)' % (need, fresh))
@@ -126,6 +127,56 @@ def extract(profile='dev', repo=REPO, packages=None, tag=None):
     finally:
         fcntl.flock(lock, fcntl.LOCK_UN)
         lock.close()
+
+
+_FIXTURES = {}
+
+
+def fixture_facts(name, profile='dev'):
+    """facts of a positive-control crate under /verif/fixtures (same driver, same flags)"""
+    key = (name, profile)
+    if key not in _FIXTURES:
+        d = extract(profile, repo=os.path.join(VERIF, 'fixtures', name), tag='-fx-' + name, need=1)
+        _FIXTURES[key] = mir.Facts(d)
+    return _FIXTURES[key]
+
+
+class FixtureCtx:
+    """a Ctx whose fact base is a fixture crate: lets a rule module run unchanged on the control"""
+
+    def __init__(self, name, tier='quick'):
+        self.name = name
+        self.tier = 'quick'
+        self.repo = os.path.join(VERIF, 'fixtures', name)
+        self.configs = []
+        self.profile = 'dev'
+
+    def facts(self, profile=None):
+        return fixture_facts(self.name, 'dev')
+
+    def read(self, rel):
+        with open(os.path.join(REPO, rel)) as fh:
+            return fh.read()
+
+
+def run_controls(chk, module, fixture, expected):
+    """run `module` on the fixture and require every (rule, key-prefix) in `expected` to be
+    reported as a violation there"""
+    fctx = FixtureCtx(fixture)
+    sub = Check(chk.pid, chk.level, 'quick')
+    sub._is_control = True
+    try:
+        module.run_rules(fctx, sub) if hasattr(module, 'run_rules') else module.run(fctx, sub)
+    except InfraError:
+        raise
+    except Exception as e:       # a crash on the control is a broken rule, not a verdict on /repo
+        chk.control('%s:%s' % (fixture, module.__name__.split('.')[-1]), False, 'rule crashed on the fixture: %r' % e)
+        return
+    bad = [(o['rule'], o['key']) for o in sub.obs if not o['ok']]
+    for rule, prefix in expected:
+        fired = any(r == rule and k.startswith(prefix) for r, k in bad)
+        chk.control('%s:%s:%s' % (fixture, rule, prefix), fired,
+                    'expected a violation of %s %s* on fixtures/%s; violations there: %s' % (rule, prefix, fixture, bad[:6]))
 
 
 class Ctx:
